@@ -51,20 +51,38 @@ def synthRom (seed : Nat) : ByteArray := Id.run do
 def imageOf (bytes : ByteArray) : Cart.Image :=
   { len := bytes.size, byte := fun i => (bytes.get! i).toNat }
 
-/-! ### cartridge RAM: the functional update chain is replaced by an (extensionally equal) table -/
-def tabulate (ram : Cart.Ram) (len : Nat) : Cart.Ram :=
-  let arr : Array Nat := Array.ofFn (n := len * 0x2000) fun i => ram (i.val / 0x2000) (i.val % 0x2000)
+/-! ### cartridge RAM: the functional update chain is replaced by an (extensionally equal) table.
+    The table is built by a definition of DATA type (so it is evaluated once, when `compactCart` runs);
+    a `let` inside a function-valued definition would be re-evaluated at every call. -/
+def ramTable (ram : Cart.Ram) (len : Nat) : Array Nat :=
+  Array.ofFn (n := len * 0x2000) fun i => ram (i.val / 0x2000) (i.val % 0x2000)
+def ramOf (arr : Array Nat) (len : Nat) (ram : Cart.Ram) : Cart.Ram :=
   fun b o => if b < len ∧ o < 0x2000 then arr[b * 0x2000 + o]! else ram b o
 
-def tabulate2 (ram : Nat → Nat) : Nat → Nat :=
-  let arr : Array Nat := Array.ofFn (n := 512) fun i => ram i.val
-  fun o => if o < 512 then arr[o]! else ram o
+def cellTable (ram : Nat → Nat) : Array Nat := Array.ofFn (n := 512) fun i => ram i.val
+def cellOf (arr : Array Nat) (ram : Nat → Nat) : Nat → Nat := fun o => if o < 512 then arr[o]! else ram o
 
 def compactCart : Cart.Mbc → Cart.Mbc
-  | .mbc1 m => if m.ramEnabled then .mbc1 { m with ram := tabulate m.ram m.ramLen } else .mbc1 m
-  | .mbc2 m => if m.ramEnabled then .mbc2 { m with ram := tabulate2 m.ram } else .mbc2 m
-  | .mbc3 m => if m.ramEnabled then .mbc3 { m with ram := tabulate m.ram m.ramLen } else .mbc3 m
-  | .mbc5 m => if m.ramEnabled then .mbc5 { m with ram := tabulate m.ram m.ramLen } else .mbc5 m
+  | .mbc1 m =>
+    if m.ramEnabled then
+      let arr := ramTable m.ram m.ramLen
+      .mbc1 { m with ram := ramOf arr m.ramLen m.ram }
+    else .mbc1 m
+  | .mbc2 m =>
+    if m.ramEnabled then
+      let arr := cellTable m.ram
+      .mbc2 { m with ram := cellOf arr m.ram }
+    else .mbc2 m
+  | .mbc3 m =>
+    if m.ramEnabled then
+      let arr := ramTable m.ram m.ramLen
+      .mbc3 { m with ram := ramOf arr m.ramLen m.ram }
+    else .mbc3 m
+  | .mbc5 m =>
+    if m.ramEnabled then
+      let arr := ramTable m.ram m.ramLen
+      .mbc5 { m with ram := ramOf arr m.ramLen m.ram }
+    else .mbc5 m
   | c => c
 
 def compact (w : Whole) : Whole :=
